@@ -63,6 +63,7 @@ type scenario struct {
 	Opts     []optSpecC
 	Defaults int  // the first Defaults options are given to NewFunc
 	Subs     bool // redef family: labels carry subtypes
+	Collide  bool // a value supplied under a parameter's name with another type (redef family)
 	events   []string
 	pops     []string
 	nextEid  int
@@ -931,6 +932,11 @@ func (sc *scenario) classifyErr(err error) string {
 		mentions := true
 		for _, a := range unsat.Args {
 			if !strings.Contains(msg, a.String()) {
+				mentions = false
+			}
+			// one of its renderings went through a formatter as a format string (fmt's own error markers)
+			if strings.Contains(a.String(), "%") && !strings.Contains(a.String(), "%!") &&
+				(strings.Contains(msg, "(MISSING)") || strings.Contains(msg, "%!(NOVERB)")) {
 				mentions = false
 			}
 		}
